@@ -151,6 +151,16 @@ def check_quantized(ctx, mk, t, base, grp, rep=None):
 _QJIT = {}
 
 
+def _worst(back, xr, tol, np):
+  e = np.abs(np.asarray(back, np.float64) - xr) - tol
+  ix = np.unravel_index(int(np.nanargmax(e)), e.shape) if e.size else ()
+  try:
+    return {'index': [int(i) for i in ix], 'got': float(back[ix]),
+            'want': float(xr[ix]), 'tol': float(np.broadcast_to(tol, xr.shape)[ix])}
+  except Exception:  # pylint: disable=broad-except
+    return {}
+
+
 def scaled_requantize(ctx, mk, t, base, deq, nb, diag):
   """Exponent sweep on a reached tensor: the dequantized leaf, scaled by powers
   of two towards the subnormal and the near-overflow end of float32, goes
@@ -205,11 +215,15 @@ def scaled_requantize(ctx, mk, t, base, deq, nb, diag):
       ctx.ev('q_halfbucket', 'ok' if okh else 'violation')
       if not okh:
         sub = bool(np.any((colmax > 0) & (colmax / nb < 2.0 ** -126)))
+        bad = np.abs(back - xr) > tol if np.all(np.isfinite(back)) else None
+        sub_in = bad is not None and bool(np.all(np.abs(xr[bad]) < 2.0 ** -126))
         ctx.violate('q_halfbucket', mk,
                     'bucket_size_subnormal' if sub else
+                    'subnormal_input_flushed_to_zero' if sub_in else
                     'scaled_tensor_off_by_more_than_half_bucket', tick=t,
                     leaf=base, log2_scale=float(k), how=how,
-                    max_abs=float(np.max(np.abs(xr))))
+                    max_abs=float(np.max(np.abs(xr))),
+                    worst=_worst(back, xr, tol, np))
 
 
 def quant_ds(ctx, rec):
